@@ -93,6 +93,9 @@ type rtpDownTrack struct {
 	stats          *receiverStats
 	atomics        *downTrackAtomics
 	cname          atomic.Value
+
+	// serialises read-modify-write cycles of atomics.layerInfo
+	layerMu sync.Mutex
 }
 
 func (down *rtpDownTrack) SetTimeOffset(ntp uint64, rtp uint32) {
@@ -230,6 +233,7 @@ func (down *rtpDownTrack) Write(buf []byte) (int, error) {
 		return 0, err
 	}
 
+	down.layerMu.Lock()
 	layer := down.getLayerInfo()
 
 	if flags.Tid > layer.maxTid || flags.Sid > layer.maxSid {
@@ -250,7 +254,7 @@ func (down *rtpDownTrack) Write(buf []byte) (int, error) {
 			layer.maxSid = flags.Sid
 		}
 		down.setLayerInfo(layer)
-		down.adjustLayer()
+		down.adjustLayerLocked()
 		layer = down.getLayerInfo()
 	}
 
@@ -275,6 +279,7 @@ func (down *rtpDownTrack) Write(buf []byte) (int, error) {
 			down.remote.RequestKeyframe()
 		}
 	}
+	down.layerMu.Unlock()
 
 	if flags.Tid > layer.tid || flags.Sid > layer.sid ||
 		(flags.Sid < layer.sid && flags.SidNonReference) {
@@ -334,6 +339,13 @@ func (t *rtpDownTrack) GetMaxBitrate() (uint64, int, int) {
 // adjusts the layer by one step.  It prefers temporal layers, and only
 // uses spatial layers as a last resort.
 func (t *rtpDownTrack) adjustLayer() {
+	t.layerMu.Lock()
+	defer t.layerMu.Unlock()
+	t.adjustLayerLocked()
+}
+
+// called with t.layerMu taken
+func (t *rtpDownTrack) adjustLayerLocked() {
 	max, _, _ := t.GetMaxBitrate()
 	r, _ := t.rate.Estimate()
 	rate := uint64(r) * 8
